@@ -111,3 +111,253 @@ Qed.
 (* unordered: a speciation below a duplication; the speciation has one lossy edge (charged), the
    duplication takes its lossy second child as the free copy (not charged) *)
 Example C06_example_unordered := charged_edges_example.
+
+(** * Tie to the source by translation (model/reconciliation.py: the cost evaluator)
+
+    [Gen/EvalGen.v] is regenerated on every run from ReconciliationOutput.node_event / _cost_rec / cost and
+    SuperReconciliationOutput.reconciliation_cost / _ordered_labeling_cost / _unordered_labeling_cost /
+    labeling_cost / cost (translator/pyfun.py, translator/eval_gen.py): object nodes carry an identifier, the
+    dictionaries keyed by nodes are total functions of it, the species LCA structure is a parameter
+    instantiated here with the path operations (C17 ties those to the code).  The generated evaluator equals
+    the hand-written model for all trees, mappings, labellings and costs (sloss >= 0 for the unordered count). *)
+
+From SR Require Import Gen.EvalGen Proofs.EvalGenProofs.
+
+Theorem C06_gen_node_event_eq :
+  forall (lca node_id : Type) (self : G.rout_state path lca node_id) (t : G.TreeNode node_id),
+       node_event_p self t =
+       G.Ok
+         (self,
+          node_event_spec (G.rin_leaf_object_species (G.rout_input self))
+            (G.rout_object_species self) t).
+Proof. exact @gen_node_event_eq. Qed.
+Print Assumptions C06_gen_node_event_eq.
+
+Theorem C06_gen_cost_rec_eq :
+  forall (lca node_id : Type) (self : G.rout_state path lca node_id)
+         (syn : node_id -> list fam) (t : G.TreeNode node_id),
+       cost_rec_p self t =
+       G.Ok
+         (self,
+          cost (ccosts (G.rin_costs (G.rout_input self)))
+            (otree_of (G.rin_leaf_object_species (G.rout_input self)) syn t)
+            (rtree_of (G.rout_object_species self) t)).
+Proof. exact @gen_cost_rec_eq. Qed.
+Print Assumptions C06_gen_cost_rec_eq.
+
+Theorem C06_gen_cost_eq :
+  forall (lca node_id : Type) (self : G.rout_state path lca node_id)
+         (syn : node_id -> list fam),
+       cost_p self =
+       G.Ok
+         (self,
+          cost (ccosts (G.rin_costs (G.rout_input self)))
+            (otree_of (G.rin_leaf_object_species (G.rout_input self)) syn
+               (G.rin_object_tree (G.rout_input self)))
+            (rtree_of (G.rout_object_species self) (G.rin_object_tree (G.rout_input self)))).
+Proof. exact @gen_cost_eq. Qed.
+Print Assumptions C06_gen_cost_eq.
+
+Theorem C06_gen_super_node_event_eq :
+  forall (lca node_id : Type) (self : G.sout_state fam path lca node_id)
+         (t : G.TreeNode node_id),
+       snode_event_p self t =
+       G.Ok
+         (self,
+          node_event_spec (G.sin_leaf_object_species (G.sout_input self))
+            (G.sout_object_species self) t).
+Proof. exact @gen_super_node_event_eq. Qed.
+Print Assumptions C06_gen_super_node_event_eq.
+
+Theorem C06_gen_super_cost_rec_eq :
+  forall (lca node_id : Type) (self : G.sout_state fam path lca node_id)
+         (syn : node_id -> list fam) (t : G.TreeNode node_id),
+       scost_rec_p self t =
+       G.Ok
+         (self,
+          cost (co_of self) (otree_of (G.sin_leaf_object_species (G.sout_input self)) syn t)
+            (rtree_of (G.sout_object_species self) t)).
+Proof. exact @gen_super_cost_rec_eq. Qed.
+Print Assumptions C06_gen_super_cost_rec_eq.
+
+Theorem C06_gen_super_reconciliation_cost_eq :
+  forall (lca node_id : Type) (self : G.sout_state fam path lca node_id),
+       sreconciliation_cost_p self =
+       G.Ok (self, cost (co_of self) (ot_of self) (forget (lt_of self))).
+Proof. exact @gen_super_reconciliation_cost_eq. Qed.
+Print Assumptions C06_gen_super_reconciliation_cost_eq.
+
+Theorem C06_gen_ordered_labeling_cost_eq :
+  forall (lca node_id : Type) (id_eqb : node_id -> node_id -> bool),
+       (forall x y : node_id, reflect (x = y) (id_eqb x y)) ->
+       forall self : G.sout_state fam path lca node_id,
+       sordered_p id_eqb self = lab_res self (ordered_labeling_cost (co_of self) (lt_of self)).
+Proof. exact @gen_ordered_labeling_cost_eq. Qed.
+Print Assumptions C06_gen_ordered_labeling_cost_eq.
+
+Theorem C06_gen_unordered_labeling_cost_eq :
+  forall (lca node_id : Type) (self : G.sout_state fam path lca node_id),
+       0 <= c_sloss (co_of self) ->
+       sunordered_p self = lab_res self (unordered_labeling_cost (co_of self) (lt_of self)).
+Proof. exact @gen_unordered_labeling_cost_eq. Qed.
+Print Assumptions C06_gen_unordered_labeling_cost_eq.
+
+Theorem C06_gen_labeling_cost_eq :
+  forall (lca node_id : Type) (id_eqb : node_id -> node_id -> bool),
+       (forall x y : node_id, reflect (x = y) (id_eqb x y)) ->
+       forall self : G.sout_state fam path lca node_id,
+       0 <= c_sloss (co_of self) ->
+       slabeling_cost_p id_eqb self =
+       lab_res self (labeling_cost (co_of self) (G.sout_ordered self) (lt_of self)).
+Proof. exact @gen_labeling_cost_eq. Qed.
+Print Assumptions C06_gen_labeling_cost_eq.
+
+Theorem C06_gen_super_cost_eq :
+  forall (lca node_id : Type) (id_eqb : node_id -> node_id -> bool),
+       (forall x y : node_id, reflect (x = y) (id_eqb x y)) ->
+       forall self : G.sout_state fam path lca node_id,
+       0 <= c_sloss (co_of self) ->
+       scost_p id_eqb self =
+       match total_cost (co_of self) (ot_of self) (G.sout_ordered self) (lt_of self) with
+       | Some v => G.Ok (self, v)
+       | None => G.Err G.AssertionError
+       end.
+Proof. exact @gen_super_cost_eq. Qed.
+Print Assumptions C06_gen_super_cost_eq.
+
+Theorem C06_gen_eval_externals_tied :
+  (forall l : list fam,
+        SubseqGen.gen_subseq_complete l = SubseqGen.Ok (Z.of_N (subseq_complete l))) /\
+       (forall child parent : list fam,
+        SubseqGen.gen_mask_from_subseq fam_eqb child parent =
+        SubseqGen.Ok (mask_from_subseq fam_eqb child parent)) /\
+       (forall (child parent : N) (edges : bool),
+        SubseqGen.gen_subseq_segment_dist child parent edges =
+        SubseqGen.Ok (seg_dist child parent edges)).
+Proof. exact @gen_eval_externals_tied. Qed.
+Print Assumptions C06_gen_eval_externals_tied.
+
+Theorem C06_negative_sloss_differs :
+  sunordered_p
+         {|
+           G.sout_input :=
+             {|
+               G.sin_object_tree :=
+                 G.TreeNode_node 0%nat (G.TreeNode_leaf 1%nat) (G.TreeNode_leaf 2%nat);
+               G.sin_species_lca := tt;
+               G.sin_leaf_object_species := fun _ : nat => [];
+               G.sin_costs :=
+                 {|
+                   G.CostValues_SPECIATION := 0;
+                   G.CostValues_DUPLICATION := 1;
+                   G.CostValues_HORIZONTAL_TRANSFER := Fin 1;
+                   G.CostValues_FULL_LOSS := 1;
+                   G.CostValues_SEGMENTAL_LOSS := -1
+                 |};
+               G.sin_leaf_syntenies :=
+                 fun i : nat => match i with
+                                | 1%nat => [1%N]
+                                | _ => [1%N; 2%N]
+                                end
+             |};
+           G.sout_object_species := fun _ : nat => [];
+           G.sout_syntenies := fun i : nat => match i with
+                                              | 1%nat => [1%N]
+                                              | _ => [1%N; 2%N]
+                                              end;
+           G.sout_ordered := false
+         |} =
+       G.Ok
+         ({|
+            G.sout_input :=
+              {|
+                G.sin_object_tree :=
+                  G.TreeNode_node 0%nat (G.TreeNode_leaf 1%nat) (G.TreeNode_leaf 2%nat);
+                G.sin_species_lca := tt;
+                G.sin_leaf_object_species := fun _ : nat => [];
+                G.sin_costs :=
+                  {|
+                    G.CostValues_SPECIATION := 0;
+                    G.CostValues_DUPLICATION := 1;
+                    G.CostValues_HORIZONTAL_TRANSFER := Fin 1;
+                    G.CostValues_FULL_LOSS := 1;
+                    G.CostValues_SEGMENTAL_LOSS := -1
+                  |};
+                G.sin_leaf_syntenies :=
+                  fun i : nat => match i with
+                                 | 1%nat => [1%N]
+                                 | _ => [1%N; 2%N]
+                                 end
+              |};
+            G.sout_object_species := fun _ : nat => [];
+            G.sout_syntenies := fun i : nat => match i with
+                                               | 1%nat => [1%N]
+                                               | _ => [1%N; 2%N]
+                                               end;
+            G.sout_ordered := false
+          |}, -1) /\
+       unordered_labeling_cost
+         (co_of
+            {|
+              G.sout_input :=
+                {|
+                  G.sin_object_tree :=
+                    G.TreeNode_node 0%nat (G.TreeNode_leaf 1%nat) (G.TreeNode_leaf 2%nat);
+                  G.sin_species_lca := tt;
+                  G.sin_leaf_object_species := fun _ : nat => [];
+                  G.sin_costs :=
+                    {|
+                      G.CostValues_SPECIATION := 0;
+                      G.CostValues_DUPLICATION := 1;
+                      G.CostValues_HORIZONTAL_TRANSFER := Fin 1;
+                      G.CostValues_FULL_LOSS := 1;
+                      G.CostValues_SEGMENTAL_LOSS := -1
+                    |};
+                  G.sin_leaf_syntenies :=
+                    fun i : nat => match i with
+                                   | 1%nat => [1%N]
+                                   | _ => [1%N; 2%N]
+                                   end
+                |};
+              G.sout_object_species := fun _ : nat => [];
+              G.sout_syntenies :=
+                fun i : nat => match i with
+                               | 1%nat => [1%N]
+                               | _ => [1%N; 2%N]
+                               end;
+              G.sout_ordered := false
+            |})
+         (lt_of
+            {|
+              G.sout_input :=
+                {|
+                  G.sin_object_tree :=
+                    G.TreeNode_node 0%nat (G.TreeNode_leaf 1%nat) (G.TreeNode_leaf 2%nat);
+                  G.sin_species_lca := tt;
+                  G.sin_leaf_object_species := fun _ : nat => [];
+                  G.sin_costs :=
+                    {|
+                      G.CostValues_SPECIATION := 0;
+                      G.CostValues_DUPLICATION := 1;
+                      G.CostValues_HORIZONTAL_TRANSFER := Fin 1;
+                      G.CostValues_FULL_LOSS := 1;
+                      G.CostValues_SEGMENTAL_LOSS := -1
+                    |};
+                  G.sin_leaf_syntenies :=
+                    fun i : nat => match i with
+                                   | 1%nat => [1%N]
+                                   | _ => [1%N; 2%N]
+                                   end
+                |};
+              G.sout_object_species := fun _ : nat => [];
+              G.sout_syntenies :=
+                fun i : nat => match i with
+                               | 1%nat => [1%N]
+                               | _ => [1%N; 2%N]
+                               end;
+              G.sout_ordered := false
+            |}) = Some 0.
+Proof. exact @negative_sloss_differs. Qed.
+Print Assumptions C06_negative_sloss_differs.
+
+Example C06_gen_eval_example := gen_eval_example.
